@@ -30,6 +30,8 @@ CLAIMS = {
             "liveness ('within bounded time once the network behaves') is an on-paper ranking argument over these step contracts; asyncio models; external cancellation excluded."),
     "C08": ("proof", "Deadline invariant proved on the real _heartbeat_timeout_loop with a ghost clock: when == L + timeout at every wait (armed at (re)start and after every expiry, pushed back in the same step a response is seen), expiry resets iff connected, no other call site of reset_connection; one heartbeat per interval with RETRY_CONNECTED iff connected; defaults 300/330 s; start/stop idempotent.",
             "asyncio.timeout / Event.wait / gather modelled as in pyvc/aio.py (trusted)."),
+    "C09": ("proof", "Transition contract of the real _message_received of both generations for every (state, frame shape, to-address) triple: next state, the single next request of the fixed order (version, names, abilities, AC status, timer status, zone status) sent with RETRY_CONNECTED after the state was advanced, the model update that receives the frame, completion effects (heartbeat start, AT4 poll task, initialised flag); every other pair changes nothing and sends nothing; AT5 echo rule only for to-address 0xB0. init(): subscriptions before open_socket, waits at most 5.0 s, returns the initialised flag, never raises. Model building (names, abilities incl. AT4 bitmap / single-AC / range fallbacks) on enumerated installations (bounded).",
+            "that a console answering every request drives the six transitions is the environment's liveness; model building is enumerated over small installations (bounded stand-in); asyncio.wait_for model."),
     "C10": ("proof", "Every public getter of zone and AC objects of both generations equals the API reading of an arbitrary stored record (full enum products, no defined value raises), update_* stores the latest record for the matching id and refuses others, mode/fan selected-vs-active and mode-dependent limits as stated.",
             "record domains = what the decoders can produce; translation of names between protocol and API enums transcribed in the contracts."),
     "C11": ("proof", "Setters of both generations over all ability bitmaps, enum arguments, real temperatures, integer dampers, timer states: unsupported => ValueError and zero sends; supported => exactly one send; set-points rounded then clamped; timer commands carry the other timer as last reported.",
@@ -38,8 +40,10 @@ CLAIMS = {
             "subscriber model: async callables that may suspend/raise Exception; as_completed yields each awaitable once."),
     "C13": ("proof", "_read_one_message touches the transport only through readexactly(header_length), readexactly(announced length), readexactly(2) on the reader current at entry, consecutive cursor; _read delivers exactly what it read.",
             "segmentation independence of StreamReader.readexactly itself is an assumed library contract; cursor lemma on paper."),
-    "C15": ("proof", "Inertness after close as site obligations: _connect is a no-op on a closed socket, a connection completing after close() is closed and not adopted, no retry is scheduled once closed, send on a closed socket raises NotOpenError without holding anything, close() leaves is_open False and schedules nothing; heartbeat stop cancels and awaits both tasks.",
-            "shutdown() of the API objects and re-init are not yet under contract in this check; quiescence 'no task remains' is proved as inertness, not as an empty schedule."),
+    "C14": ("proof", "_connection_changed(connected=True) outside the first handshake step sends AC-status then zone/group-status requests with RETRY_CONNECTED and keeps the state (all states), a disconnection sends nothing; the socket notifies connected=True before draining (socket._connect contract); AT4 _group_status_request_loop satisfies the same deadline invariant as the heartbeat with T = 300 s armed from the start and re-armed after every expiry, on expiry one GroupStatusRequest iff connected; the event is set only by group status in CONNECTED; unchanged data notifies nobody (update contracts).",
+            "asyncio.timeout / Event models; convergence of the model to the console's answers is C10 applied to those answers."),
+    "C15": ("proof", "shutdown() of both AirTouch objects: state CLOSED, not initialised, heartbeat stopped, AT4 poll task cancelled and awaited, socket closed, model dropped, nothing sent (all states). Inertness after close as site obligations: _connect is a no-op on a closed socket, a connection completing after close() is closed and not adopted, no retry is scheduled once closed, send on a closed socket raises NotOpenError without holding anything, close() leaves is_open False and schedules nothing; heartbeat stop cancels and awaits both tasks.",
+            "quiescence 'no task remains' is proved as inertness of the socket coroutines after close, not as an empty schedule; re-init = the init contract holds from the CLOSED post-state of shutdown."),
     "C16": ("proof", "_enqueue_message: purge precedes the capacity test, an eleventh unexpired message raises QueueOverflowError leaving exactly the unexpired old ones in order, otherwise the new entry is appended last; not-open sends raise NotOpenError and hold nothing. Queue lengths are enumerated (0..6 all expiry patterns, 9..11 near capacity; thorough 7..11 all patterns): labelled bounded.",
             "bounded enumeration of the queue length (the loop runs over a concrete-length deque)."),
     "C17": ("proof", "Fallback decoders for unregistered ids return the payload unchanged, AT5 status decoders honour strides larger than the layout, every decoder's exception set is within Exception, _read_one_message lets only transport/decoder exceptions out and _read turns each into a reset without raising.",
@@ -49,8 +53,6 @@ CLAIMS = {
 }
 
 NOT_YET = {
-    "C09": "initialisation state machine (_message_received transition table, init/ shutdown of the AirTouch objects) is not yet under contract in this commit",
-    "C14": "reconnect refresh (_connection_changed) and the AT4 group-status poll loop are not yet under contract in this commit",
     "C18": "discovery (search loop, datagram decoders over byte strings, factory) is not yet under contract in this commit",
 }
 
